@@ -187,6 +187,24 @@ def run(ck, models, tier):
                 al = alloc_events(v)
                 cw = classify_writes(v, func)
                 entries = [c for c in cw if c[1] == "entry"]
+                if al and func is not None:
+                    # R11.7 the search is anchored on the function being patched (premise of R11.4: the allocator's distance
+                    # contract is about its own anchor argument)
+                    anchor = al[-1].args[0] if al[-1].args else None
+                    aptrs = find_ptr_leaves(anchor) if anchor is not None else []
+                    if not aptrs and isinstance(anchor, Ref):
+                        try:
+                            aptrs = find_ptr_leaves(get_path(anchor.cell.val, anchor.path))
+                        except Exception:
+                            aptrs = []
+                    oka = bool(aptrs) and isinstance(aptrs[0], Int) and same_expr(aptrs[0].e, func.e)
+                    if tm.arch == "aarch64" or oka:
+                        ck.ob("R11.7", "%s/search-anchored-on-the-function" % rn, tm.target, oka,
+                              "the allocation is searched around %s (the function being patched is %s)" % (
+                                  fmt(aptrs[0].e, 3) if aptrs and isinstance(aptrs[0], Int) else anchor, fmt(func.e, 3)), where(al[-1]))
+                    else:
+                        ck.info("%s: trampoline searched around %s, not around the function; on x86-64 the entry writer reaches any "
+                                "distance (abs64 form), so C11's 'within reach' still holds" % (rn, fmt(aptrs[0].e, 3) if aptrs and isinstance(aptrs[0], Int) else anchor))
                 if entries:
                     ok6 = bool(al) and al[0].idx < entries[0][0].idx
                     ck.ob("R11.6", "%s/allocation-before-entry-write" % rn, tm.target, ok6,
